@@ -5,6 +5,21 @@ HERE = os.path.dirname(os.path.dirname(os.path.abspath(__file__)))
 
 # id -> (technique, level text, level note, design ref)
 CHECKS = {
+ "C04": (
+  "hypothesis PBT: differential against a pure-python reference likelihood + metamorphic relations (haplotype/read permutation, count==duplication, rearranged-genotype identity, wrapper equivalences)",
+  "Exploration: thousands of generated read tensors (gaps, partial NaN, exact zeros, weighted duplicates) x genotypes x rearrangement vectors x intervals; every likelihood entry point (assemble, structural change, call wrapper, pedigree wrapper with zero-count padding; jitted and .py_func) must equal the documented formula and satisfy each stated symmetry at 1e-9.",
+  "Reference formula in vf/ref/models.py; float64 tolerance 1e-9 relative; counts>=1 except the pedigree padding rows.",
+  "DESIGN.md §4 C04"),
+ "C05": (
+  "exhaustive enumeration of genotype spaces + hypothesis-drawn frequency vectors against a rising-factorial multinomial / Dirichlet-multinomial reference",
+  "Exploration: every unordered genotype (and every allele position for the Gibbs conditional) of every (ploidy, n_alleles, F, frequencies) space in a grid, plus random frequency vectors; sums to one, pointwise equality with the reference, exact-conditional identity, assemble==call(flat) identity, permutation-count identity.",
+  "Reference prior coded without gamma functions; tolerance 1e-9 on logs and sums; the conditional is compared only where the conditioning event has positive probability.",
+  "DESIGN.md §4 C05"),
+ "C14": (
+  "hypothesis PBT on generated traces against an independent Counter-based empirical distribution (admissible-set oracle for ties)",
+  "Exploration: generated assemble / call / call-pedigree traces with repeats, arbitrary within-step row order, all burn-in lengths; posterior(), burn(), mode, mode support, allele frequencies/counts/occurrence, as_array placement and replicate_incongruence are recomputed from a Counter over the retained steps; the call sampler's sorted-output producer invariant is checked on real fits.",
+  "Ties admit any maximiser; the incongruence oracle follows each class's documented comparison (support for assemble, mode genotype for call).",
+  "DESIGN.md §4 C14"),
  "C11": (
   "exhaustive enumeration + hypothesis PBT vs math.comb and the VCF-spec genotype ordering (jitted int64 semantics)",
   "Exploration: every binomial/multiset coefficient with n<=130 (thorough 400) below 2^53, every genotype of all small (ploidy x alleles) spaces against the VCF specification's recursive ordering, and thousands of hypothesis-drawn genotypes/indices up to ploidy 100 / 1000 alleles against exact big-integer ranks; round trip and successor are checked both ways.",
